@@ -648,6 +648,10 @@ impl BuiltInFunction {
                     s
                 };
 
+                if !(2..=36).contains(radix) {
+                    bail!("`{radix}` is an invalid radix (valid radices are 2 to 36)")
+                }
+
                 if let Ok(num) = i32::from_str_radix(
                     s,
                     (*radix)
@@ -676,6 +680,10 @@ impl BuiltInFunction {
                 } else {
                     s
                 };
+
+                if !(2..=36).contains(radix) {
+                    bail!("`{radix}` is an invalid radix (valid radices are 2 to 36)")
+                }
 
                 if let Ok(num) = i128::from_str_radix(
                     s,
